@@ -176,9 +176,29 @@ def ev_cart(case, rec):
     rec.sample({'case': dict(case, az=case['az'][:2]), 'oracle_height': float(h)})
 
 
+# --- two threads converting DIFFERENT points on DIFFERENT ellipsoids at the same time ----------
+from gpmc import threads as _thr
+import numpy as _tnp
+import geodepy.constants as _tgc
+import geodepy.convert as _tgv
+import geodepy.geodesy as _tgg
+import geodepy.angles as _tga
+T_CALLS = {
+    'llh_grs80': lambda: (lambda: _tgv.llh2xyz(-37.8, 144.97, 39.65)),
+    'llh_ans_eq': lambda: (lambda: _tgv.llh2xyz(0.0, 10.0, 1000.0, _tgc.ans)),
+    'llh_obj': lambda: (lambda: _tgv.llh2xyz(_tga.HPAngle(-23.4012), _tga.HPAngle(133.5248), 603.2, _tgc.intl24)),
+    'xyz_grs80': lambda: (lambda: _tgv.xyz2llh(-4052051.7643, 4212836.2017, -2545106.0245)),
+    'xyz_ans_north': lambda: (lambda: _tgv.xyz2llh(2765120.7, -4449250.0, 3626405.6, _tgc.ans)),
+    'xyz_high': lambda: (lambda: _tgv.xyz2llh(1.0e7, -2.0e7, 3.0e7, _tgc.intl24)),
+}
+_tg, _te = _thr.make(T_CALLS, ['geodepy/convert.py'], 'convert:cartesian:threads', quick=['llh_grs80', 'llh_ans_eq', 'xyz_grs80', 'xyz_ans_north'],
+                     triple=('llh_ans_eq', 'xyz_grs80', 'xyz_high'), files_thorough=['geodepy/angles.py'])
+
+
 SUBCHECKS = [
     Sub('geo', gen_geo, ev_geo, chunk=8, floor=1000, envs=6),
     Sub('cart', gen_cart, ev_cart, chunk=8, floor=300, envs=12),
+    Sub('threads', _tg, _te, chunk=1, floor=3, poison=False),
 ]
 
 
